@@ -178,6 +178,38 @@ CLAIMED = {
         technique="symbolic execution of the real Python code (occupancy + boundary handler), cell decisions forked "
                   "by z3, one validity query per path",
         design="3.11"),
+    "C07": dict(
+        text="On bounded symbolic runs of the real main loop for every shipped configuration the solver proves at "
+             "every commit: event times never decrease; every unit's position at the event time equals its previous "
+             "trajectory (mod L), resting units do not move; positions stay in the box; identities and charges "
+             "unchanged; exactly one moving chain (one leaf or all leaves of one root) sharing one velocity of the "
+             "initial speed.",
+        note="Bounded: K committed events per configuration (quick 1-4, thorough 1-5; table in props/runcheck.py and in the evidence), the shipped 2 (or 1) root nodes, reduced cell grids, list scheduler with an argmin oracle (tied to the schedulers by C06), Time comparisons by exact value (C14), exact 1/n node weights, stub potentials/estimators (any displacement >= 0, any derivative), random draws symbolic; molecules assumed compact (members within a quarter box of the composite position). Counterexamples are confirmed by concrete re-execution of the real main loop at the model's values.",
+        technique='bounded symbolic execution of the real main loop (SingleProcessMediator.run built by the real factory from every shipped .ini) with all event orders enumerated by the explorer; one QF_LIRA validity query per property and path',
+        design="3.7 / 3.8"),
+    "C08": dict(
+        text="On the same runs: whenever an interaction or cell-veto handler is committed, every unit of the in-state "
+             "its candidate time was computed from (snapshot taken at send_event_time) still has the same velocity "
+             "in the global state and lies on the same straight-line trajectory (same position if at rest).",
+        note="Bounded: K committed events per configuration (quick 1-4, thorough 1-5; table in props/runcheck.py and in the evidence), the shipped 2 (or 1) root nodes, reduced cell grids, list scheduler with an argmin oracle (tied to the schedulers by C06), Time comparisons by exact value (C14), exact 1/n node weights, stub potentials/estimators (any displacement >= 0, any derivative), random draws symbolic; molecules assumed compact (members within a quarter box of the composite position). Counterexamples are confirmed by concrete re-execution of the real main loop at the model's values.",
+        technique='bounded symbolic execution of the real main loop (SingleProcessMediator.run built by the real factory from every shipped .ini) with all event orders enumerated by the explorer; one QF_LIRA validity query per property and path',
+        design="3.8"),
+    "C09": dict(
+        text="On the same runs, after the trash/create step following every commit: for each interaction-type tagger "
+             "the multiset of in-state identifier tuples of its running handlers equals what a fresh call of the "
+             "tagger yields for the current active state; every other tagger has as many pending events as it would "
+             "generate; handler pools are disjoint, complete and never exhausted.",
+        note="Bounded: K committed events per configuration (quick 1-4, thorough 1-5; table in props/runcheck.py and in the evidence), the shipped 2 (or 1) root nodes, reduced cell grids, list scheduler with an argmin oracle (tied to the schedulers by C06), Time comparisons by exact value (C14), exact 1/n node weights, stub potentials/estimators (any displacement >= 0, any derivative), random draws symbolic; molecules assumed compact (members within a quarter box of the composite position). Counterexamples are confirmed by concrete re-execution of the real main loop at the model's values.",
+        technique='bounded symbolic execution of the real main loop (SingleProcessMediator.run built by the real factory from every shipped .ini) with all event orders enumerated by the explorer; one QF_LIRA validity query per property and path',
+        design="3.8"),
+    "C12": dict(
+        text="On the same runs, at every commit and for every composite object: stored velocity == weighted sum of "
+             "its members' velocities (absent iff none moves) and stored position advanced to the event time == "
+             "weighted barycentre of the members' nearest images advanced to the event time.",
+        note="Bounded: K committed events per configuration (quick 1-4, thorough 1-5; table in props/runcheck.py and in the evidence), the shipped 2 (or 1) root nodes, reduced cell grids, list scheduler with an argmin oracle (tied to the schedulers by C06), Time comparisons by exact value (C14), exact 1/n node weights, stub potentials/estimators (any displacement >= 0, any derivative), random draws symbolic; molecules assumed compact (members within a quarter box of the composite position). Counterexamples are confirmed by concrete re-execution of the real main loop at the model's values." + " The real random molecule creators (direction x length products) are replaced by an arbitrary "
+             "molecule satisfying the invariant; that the creators establish it is not decided here.",
+        technique='bounded symbolic execution of the real main loop (SingleProcessMediator.run built by the real factory from every shipped .ini) with all event orders enumerated by the explorer; one QF_LIRA validity query per property and path',
+        design="3.8 / 3.12"),
 }
 
 NOT_APPLICABLE = {
